@@ -141,7 +141,7 @@ static void remove_mtimer(struct timer_mgr *timer, struct mtimer *mtimer)
 
 static int64_t schedule_abs(struct timer_mgr *timer, double abs_mtimer)
 {
-    int timer_id = next_timer_id(timer);
+    int64_t timer_id = next_timer_id(timer);
 
     struct mtimer *mtimer = mtimer_create(timer_id, abs_mtimer);
 
